@@ -82,7 +82,7 @@ Proof.
   - apply lookup_inv. exact I.
   - destruct (co_active s) as [[[[k' i] cond] t0]|] eqn:Ea; [|exact I].
     destruct (Nat.eqb k k'); cbn [negb]; [|exact I].
-    assert (New : Inv (wake maxage swr (finish (mkCo (Some (co_version s + 1, t0)) (co_now s) None (co_waiters s) (co_nfetch s) (co_version s + 1) (co_done s) (co_maxin s)) i
+    assert (New : Inv (wake maxage swr (finish (mkCo (Some (co_version s + 1, if cond then co_now s else t0)) (co_now s) None (co_waiters s) (co_nfetch s) (co_version s + 1) (co_done s) (co_maxin s)) i
                                          (mkOut 200 (co_version s + 1) true (if cond then KRevalidated else KMiss))))).
     { apply released_inv; [exact I|lia|lia|cbn; lia]. }
     destruct how.
